@@ -532,10 +532,10 @@ class QuicConnection:
 
         :param now: The current time.
         """
-        network_path = self._network_paths[0]
-
-        if self._state in END_STATES:
+        if self._state in END_STATES or not self._network_paths:
             return []
+
+        network_path = self._network_paths[0]
 
         # build datagrams
         builder = QuicPacketBuilder(
